@@ -56,6 +56,10 @@ void dsched_on_jump(dsched_jump_cb);
 // number of registered threads currently blocked for reason `why` (0 = any) with a deadline
 int dsched_count_blocked(int why, int timed_only);
 int dsched_count_runnable(void);
+// registered threads other than the caller that have not finished
+int dsched_count_alive(void);
+// is thread `tid` blocked (returns DS_WHY_* or 0), and is its wait timed
+int dsched_thread_state(int tid, int* timed);
 // Let everybody else run until nobody else is runnable (they are all blocked) or `max_points`.
 // Returns 1 if quiescent was reached. Used to bring pool workers to the parked state.
 int dsched_settle(uint64_t max_points);
@@ -63,6 +67,8 @@ int dsched_settle(uint64_t max_points);
 void dsched_sleep_ns(uint64_t ns);
 // last few decisions, human readable (for samples / replay files)
 const char* dsched_trace_tail(void);
+// thread table (states, blocking reasons), human readable
+const char* dsched_table(void);
 
 #ifdef __cplusplus
 }
